@@ -190,10 +190,34 @@ class Adapter:
                         os.unlink(early)
                     except Exception:
                         pass
-            if not ok or diff_obs(exp, drv.project()):
-                res['inconclusive'] = True        # the model itself diverged: C05's business
-                return res
             m = drv.model
+            if not ok:
+                res['inconclusive'] = True        # a call had another outcome than specified: C05's business
+                return res
+            if diff_obs(exp, drv.project()):
+                # The model itself differs from the specification state (C05's business) - but a round trip is a stutter
+                # on WHATEVER the model is: it is still judged, against the model's own content (counts and ids of what
+                # was saved and what came back)
+                res['inconclusive'] = True
+                try:
+                    path = os.path.join(os.getcwd(), 'm-%d.json' % os.getpid())
+                    m.save_to_file(path)
+                    mb = Model.load_from_file(path, ctx.factory)
+                    os.unlink(path)
+                    before = (sorted(int(a.id) for a in m.assets), len(m.associations), len(m.attackers))
+                    after = (sorted(int(a.id) for a in mb.assets), len(mb.associations), len(mb.attackers))
+                    if before != after:
+                        res['div'].append({'kind': 'divergence', 'action': 'RoundTrip', 'component': 'content_lost_after_model_divergence',
+                                           'features': ['after_model_divergence', 'json', 'names_' + nm],
+                                           'detail': {'assets_assocs_attackers_before': before, 'after': after},
+                                           'case': {'lang': lang, 'acts': [s['act'] for s in hist], 'namemap': nm},
+                                           'full_case': case, 'adapter': 'harness.replay_roundtrip'})
+                except Exception as e:
+                    res['div'].append({'kind': 'divergence', 'action': 'RoundTrip', 'component': 'roundtrip_raises_after_model_divergence',
+                                       'features': ['after_model_divergence', 'json', 'names_' + nm], 'detail': {'error': repr(e)[:300]},
+                                       'case': {'lang': lang, 'acts': [s['act'] for s in hist], 'namemap': nm},
+                                       'full_case': case, 'adapter': 'harness.replay_roundtrip'})
+                return res
             want = abs_of_expected(exp)
             hid = {a['id']: a['h'] for a in exp['assets']}
             for fmt in ('json', 'yml', 'yaml'):
@@ -248,7 +272,8 @@ class Adapter:
                         os.unlink(path)
                         t4 = AttackerAttachment()
                         m4.add_attacker(t4)
-                        a4 = getattr(ctx.ns, str(m4.assets[0].type))() if m4.assets else None
+                        # (a given, unused name: the automatic name '<type>:<id>' may legitimately be taken already)
+                        a4 = getattr(ctx.ns, str(m4.assets[0].type))(name='zz added later') if m4.assets else None
                         if a4 is not None:
                             m4.add_asset(a4)
                         n_atk, n_assets = len(m4.attackers), len(m4.assets)
